@@ -885,7 +885,7 @@ def src_term(s, query, ids, intern, size, bbox):
         llit(ids), blit(wms), blit(res_ok), obool(s.image_opts.transparent), opfl(s.opacity), cov,
         intern['url'].code(tmpl.url), llit(lnames), intern['srs'].code(s.supported_srs), intern['fmt'].code(s.supported_formats),
         'None' if tc is None else '(Some %s)' % rgbl(tc), olit(s.transparent_color_tolerance),
-        0 if s.coverage is None else intern['cov'].code(s.coverage),
+        0 if s.coverage is None else intern['cov'].code((s.coverage, bool(s.coverage.clip))),
         intern['dims'].code(query.dimensions_for_params(s.fwd_req_params))),
         {'res_ok': res_ok, 'cov': cov, 'wms': wms})
 
@@ -925,11 +925,13 @@ Fixpoint lookup_key (t : list (list Z * layer)) (k : list Z) : option layer :=
 Definition reqs_of (l : list src) : list (Z * list Z) :=
   map (fun s => (s_url s, s_lnames s)) (filter (fun s => negb (src_blank s)) l).
 Definition req_eqb (a b : Z * list Z) : bool := (fst a =? fst b) && list_eqb Z.eqb (snd a) (snd b).
+Fixpoint auth_of (l : list (Z * Z)) (k : Z) : Z :=
+  match l with [] => 0 | (k', v) :: r => if k' =? k then v else auth_of r k end.
 """
-WMS_TYPE = ('list wlayer * list bool * list (list Z * layer) * nat * ropts * list (Z * list Z) * image')
-WMS_CHECK = ("fun c => let '(req, trs, table, n, o, log, obs) := c in "
-             "let rl := combined_layers (render_layers true req) in "
-             "let r := wms_map true true (fun s => lookup_key table (s_ids s)) n o req in "
+WMS_TYPE = ('list wlayer * list (Z * Z) * list (list Z * layer) * nat * ropts * list (Z * list Z) * image')
+WMS_CHECK = ("fun c => let '(req, auth, table, n, o, log, obs) := c in "
+             "let rl := combined_layers (flat_map snd (select_layers_auth true (auth_of auth) req)) in "
+             "let r := wms_map_auth true true (auth_of auth) (fun s => lookup_key table (s_ids s)) n o req in "
              "list_eqb req_eqb (reqs_of rl) log && image_eqb (result_image r) obs")
 
 
@@ -983,6 +985,16 @@ def fixed_scenarios():
                 [{'name': 'l0', 'title': 'l0', 'sources': ['s0', 's1']}])
     keyed['white'] = ('u1',)
     out.append((keyed, [(['l0'], True, None, (0, 0)), (['l0'], False, None, (0, 0))]))
+    # authorisation: the opaque upper layer is removed (implicit member of a group) or limited to an area
+    authc = cfg({'s0': src(0, ['u0'], False), 's1': src(1, ['u1'], False), 's2': src(1, ['u2'], True)},
+                [{'name': 'l0', 'title': 'l0', 'sources': ['s0']},
+                 {'name': 'g1', 'title': 'g', 'layers': [{'name': 'l2', 'title': 'l2', 'sources': ['s1']},
+                                                        {'name': 'l3', 'title': 'l3', 'sources': ['s2']}]},
+                 {'name': 'l4', 'title': 'l4', 'sources': ['s1']}])
+    out.append((authc, [(['l0', 'g1'], True, None, (0, 0), None, {'deny': 'l2'}),
+                        (['l0', 'l4'], True, None, (0, 0), None, {'limit': 'l4', 'bbox': [0, -1, 2, W + 1]}),
+                        (['l0', 'g1'], False, None, (0, 0), None, {'limit': 'l2', 'bbox': [1, -1, 3, W + 1]}),
+                        (['l0', 'g1'], True, None, (0, 0), None, None)]))
     # concurrent rendering, more layers than renderer threads, the upstream of a lower layer answers last
     three = cfg({'s0': src(0, ['u0'], True), 's1': src(1, ['u1'], True), 's2': src(0, ['u2'], True)},
                 [{'name': 'l%d' % i, 'title': 'l', 'sources': ['s%d' % i]} for i in range(3)], concurrency=2)
@@ -1053,6 +1065,9 @@ def stream_wms(ctx):
     rng_descr = []
 
     def ids_of(layer):
+        from mapproxy.layer import LimitedLayer
+        if isinstance(layer, LimitedLayer):
+            layer = layer._layer
         return getattr(layer, '_c14_ids', None) or [cur_ids.get(id(layer), 0)]
 
     def rec_render(self, layer):
@@ -1162,11 +1177,14 @@ def stream_wms(ctx):
                         break
                     req_names, transparent, bg, off = first[0]      # the first request once more
                     gate = None
+                    auth = first[2]
                 elif planned:
                     req_names, transparent, bg, off = planned[ri][:4]
                     gate = planned[ri][4] if len(planned[ri]) > 4 else None
+                    auth = planned[ri][5] if len(planned[ri]) > 5 else None
                 else:
                     gate = None
+                    auth = 'random' if rng.random() < 0.12 else None
                     if cfg.get('concurrency', 1) > 1 and rng.random() < 0.6:
                         used = sorted(set(x for sc in cfg['sources'].values() for x in sc['layers']))
                         if len(used) >= 2:
@@ -1193,6 +1211,33 @@ def stream_wms(ctx):
                            ','.join(req_names), ','.join(str(v) for v in bbox), W, W, 'true' if transparent else 'false'))
                 if bg is not None:
                     url += '&BGCOLOR=0x%02x%02x%02x' % bg
+                if auth == 'random':
+                    # authorize callback that removes an implicitly requested layer or limits one layer to an area
+                    leaves = [(leaf, srcs) for nm in req_names for leaf, srcs in expand_leaves(server.layers[nm])]
+                    plain = [leaf for leaf, srcs in leaves if not any(sc.coverage is not None and sc.coverage.clip for sc in srcs)]
+                    implicit = [leaf for leaf, _ in leaves if leaf not in req_names]
+                    auth = None
+                    if implicit and rng.random() < 0.5:
+                        auth = {'deny': rng.choice(implicit)}
+                    elif plain:
+                        x0 = bbox[0] + rng.randrange(0, W - 1)
+                        auth = {'limit': rng.choice(plain), 'bbox': [x0, bbox[1] - 1, x0 + rng.randrange(1, 3), bbox[3] + 1]}
+                env = {}
+                if auth:
+                    def authorize(service, layers, environ=None, _a=auth, **kw):
+                        d_ = {}
+                        for l_ in layers:
+                            if l_ == _a.get('deny'):
+                                continue
+                            d_[l_] = {'map': True}
+                            if l_ == _a.get('limit'):
+                                d_[l_]['limited_to'] = {'geometry': _a['bbox'], 'srs': 'EPSG:4326'}
+                        return {'authorized': 'partial', 'layers': d_}
+                    env = {'mapproxy.authorize': authorize}
+                auth_t = '[]'
+                if auth:
+                    auth_t = '[(%d, %d)]' % ((intern['name'].code(auth['deny']), 1) if 'deny' in auth
+                                             else (intern['name'].code(auth['limit']), 2))
                 # model terms are built BEFORE the request from the state of the real objects
                 req_t = llit([server.layers[nm] for nm in req_names], lambda ly: wlayer_term(ly, srcmap))
                 del world.log[:]
@@ -1201,7 +1246,7 @@ def stream_wms(ctx):
                 world.gate = gate
                 world.released.clear()
                 try:
-                    resp = tapp.get(url, expect_errors=True)
+                    resp = tapp.get(url, expect_errors=True, extra_environ=env)
                     if resp.status_int != 200 or not resp.content_type.startswith('image/'):
                         obs = ('error', resp.status_int, resp.body[:200].decode('latin1'))
                     else:
@@ -1219,7 +1264,7 @@ def stream_wms(ctx):
                 merged_log = [by_ids[repr(a[0])].pop(0) for a in adds if by_ids.get(repr(a[0]))]
                 if len(merged_log) == len(log):
                     log = merged_log
-                rep = {'config': cfg, 'upstream_schedule': None if gate is None else
+                rep = {'config': cfg, 'authorize_callback': auth, 'upstream_schedule': None if gate is None else
                        'upstream layer %s answers only after %s has answered' % gate, 'previous_requests_on_this_application': list(history), 'request': url,
                        'layers': req_names, 'transparent': transparent, 'bgcolor': bg, 'bbox': bbox,
                        'upstream_requests': log, 'response': obs,
@@ -1234,7 +1279,7 @@ def stream_wms(ctx):
                                  'is answered differently', dict(rep, first_response=first[1]))
                     continue
                 if first is None:
-                    first = ((req_names, transparent, bg, off), obs)
+                    first = ((req_names, transparent, bg, off), obs, auth)
                 nontrivial = len(req_names) >= 2
                 ctx.case(json.dumps([cfg, req_names, transparent, bg, off, ri], sort_keys=True, default=repr), nontrivial,
                          {k: rep[k] for k in ('layers', 'transparent', 'bgcolor', 'bbox', 'upstream_requests', 'response')}
@@ -1247,7 +1292,7 @@ def stream_wms(ctx):
                     ctx.fail('wms,error', 'GetMap failed: %r' % (obs,), rep)
                     continue
                 # ---- oracle: ideal composition of the individually rendered sources
-                oracle_wms(ctx, server, req_names, transparent, bg, world, query, obs, rep, size, bbox, snapshot, confs)
+                oracle_wms(ctx, server, req_names, transparent, bg, world, query, obs, rep, size, bbox, snapshot, confs, auth)
                 # ---- model
                 if len(adds) != len(log):
                     ctx.problem('harness', 'number of merged images differs from number of upstream requests', rep)
@@ -1268,7 +1313,7 @@ def stream_wms(ctx):
                 log_t = llit(log, lambda e: '(%d, %s)' % (intern['url'].code(e[0]),
                                                           llit([intern['lname'].code(x) for x in e[1]])))
                 terms.append('(%s, %s, %s, %d%%nat, %s, %s, %s)' % (
-                    req_t, llit([e[2] for e in log], blit), '[' + '; '.join(table) + ']', n, ropts_lit(o), log_t,
+                    req_t, auth_t, '[' + '; '.join(table) + ']', n, ropts_lit(o), log_t,
                     img_lit(obs[1] if obs[1] in ('RGB', 'RGBA', 'P', 'L') else 'L', None, obs[2])))
                 descr.append(rep)
     finally:
@@ -1289,13 +1334,6 @@ def stream_wms(ctx):
 
 def wms_triggers(server, req_names, transparent, query, world, snapshot, confs=None, bbox=None):
     trig = []
-    if confs is not None:
-        for nm in req_names:
-            for leaf, _ in expand_leaves(server.layers[nm]):
-                if leaf != nm and explicit_range_ok(confs.get(leaf), bbox) is False:
-                    # WMSGroupLayer.map_layers_for_query collects the map layers of its sub layers without asking
-                    # their renders_query: a sub layer is drawn outside its configured min_res/max_res
-                    trig.append('wms,group-ignores-child-range')
     if len(set(req_names)) != len(req_names):
         trig.append('wms,duplicate-layer-name')
     keys = []
@@ -1310,10 +1348,6 @@ def wms_triggers(server, req_names, transparent, query, world, snapshot, confs=N
         allsrc.extend(expand_ideal(server.layers[nm]))
     for a, b in zip(allsrc, allsrc[1:]):
         if a.client.request_template.url == b.client.request_template.url and a.opacity is None and b.opacity is None:
-            if a.coverage is not None and b.coverage is not None and a.coverage == b.coverage \
-                    and bool(a.coverage.clip) != bool(b.coverage.clip):
-                # coverage equality ignores the clip flag: the combined source clips both (or none) of them
-                trig.append('wms,combine-clip-flag')
             if a.transparent_color and b.transparent_color:
                 # the colour key is applied to the image composited by the server: key coloured content of the
                 # upper layer erases what is below it
@@ -1329,7 +1363,7 @@ def wms_triggers(server, req_names, transparent, query, world, snapshot, confs=N
     return trig
 
 
-def oracle_wms(ctx, server, req_names, transparent, bg, world, query, obs, rep, size, bbox, snapshot, confs):
+def oracle_wms(ctx, server, req_names, transparent, bg, world, query, obs, rep, size, bbox, snapshot, confs, auth=None):
     n = size[0] * size[1]
     layers = []
     skip = set()
@@ -1341,9 +1375,12 @@ def oracle_wms(ctx, server, req_names, transparent, bg, world, query, obs, rep, 
         for leaf, srcs in expand_leaves(server.layers[nm]):
             if explicit_range_ok(confs.get(leaf), bbox) is False:
                 continue
-            ideal_srcs.extend(srcs)
+            if auth and auth.get('deny') == leaf:
+                continue            # not permitted: not drawn, everything else is
+            lim = auth['bbox'] if auth and auth.get('limit') == leaf else None
+            ideal_srcs.extend((sc, lim) for sc in srcs)
     for _ in [0]:
-        for s in ideal_srcs:
+        for s, lim in ideal_srcs:
             if s.res_range and not s.res_range.contains(query.bbox, query.size, query.srs):
                 continue
             tmpl = s.client.request_template
@@ -1361,6 +1398,10 @@ def oracle_wms(ctx, server, req_names, transparent, bg, world, query, obs, rep, 
                     geom = geom.envelope        # without clip only the extent limits what is requested
                 outside = ideal_outside(geom, bbox, size, geom.equals(geom.envelope))
                 skip.update(k for k, v in enumerate(outside) if v is None)
+                pxs = [p[:3] + (0,) if out else p for p, out in zip(pxs, outside)]
+            if lim is not None:
+                from shapely.geometry import box
+                outside = ideal_outside(box(*lim), bbox, size, True)
                 pxs = [p[:3] + (0,) if out else p for p, out in zip(pxs, outside)]
             layers.append((pxs, opfactor(s.opacity)))
             count += 1
